@@ -32,6 +32,15 @@ def run(c):
         cls = bc.classify_compile_error(e)
         c.spec_violation(cls, "generated Rust bindings do not compile, so no value can cross the boundary (" + e + ")",
                          {"config": items[k][0], "wit": items[k][1], "rustc": e})
+    # worlds known not to compile: their own small batch (each must still fail to compile)
+    nc = bc.load_corpus(os.path.join(VERIF, "corpus", "C05-nocompile.txt"))
+    nc_items = [(cfg, text.replace("t:wX", f"t:w{900 + k}")) for k, (cfg, text) in enumerate(nc)]
+    if nc_items:
+        _, nc_dropped = bc.build_all(c, nc_items, emitter)
+        for k, e in nc_dropped.items():
+            c.spec_violation(bc.classify_compile_error(e), "generated Rust bindings do not compile, so no value can cross the boundary (" + e + ")",
+                             {"config": nc_items[k][0], "wit": nc_items[k][1], "rustc": e})
+        c.cov["nocompile_corpus"] = {"worlds": len(nc_items), "still_failing": len(nc_dropped)}
     counts = {"export": 0, "import": 0, "indirect-params": 0, "retptr": 0, "through-memory": 0}
     reqs, impl, model = [], [], []
     for batch, gmap in batches:
@@ -52,8 +61,8 @@ def run(c):
             fs = bc.value_findings(m, o)
             req = f"{m['dir']} {m['key']} {bc.vals_term(o['vals'])} -> {o['ret']}"
             reqs.append(req)
-            model.append("unchanged")
-            impl.append("unchanged" if not fs else "; ".join(f[0] for f in fs))
+            i_, m_ = bc.value_corr(m, o)
+            impl.append(i_); model.append(m_)
             mem = any(x in m["func"] for x in ("string", "list", "map", "variant", "option", "result")) 
             if mem:
                 counts["through-memory"] += 1
